@@ -154,6 +154,11 @@ def run_lane(chk, lane_cls, params=(), bounds=None, dev=True, selftest=True, twi
     prog = chk.program(variant)
     t0 = time.time()
     probe = os.environ.get('VERIF_PROBE')
+    only = os.environ.get('VERIF_ONLY_LANE')
+    if only and only not in lane_cls.name:
+        # timing experiments only: a run with skipped lanes is never a pass
+        chk.inconclusive.append(f'{lane_cls.name}: skipped (VERIF_ONLY_LANE)')
+        return {'recs': [], 'stats': {}, 'models': [], 'fns': {}, 'cuts': []}
     try:
         merged = explore_parallel(prog, lane_cls, params, dev=dev)
     except Inconclusive as e:
